@@ -15,7 +15,6 @@ RULE = ('start in {0} or [1e-6, 1e6], stop >= start (stop > 0), factor in [1, 10
         'stop = start*factor^n computed by repeated multiplication and its two floating-point neighbours, where the default count\'s '
         'logarithm rounds; invalid parameters must raise ValueError before anything is yielded. non-trivial = the sequence reaches stop '
         'after >= 2 growth steps, or start = 0, or the targeted rounding class. distinct = distinct canonical JSON of the case.')
-RULE += ' Round 6: for un-jittered cases the first use of the parameters is three live iterators advanced in a generated interleaving (one overtaking, one left suspended); each must yield a prefix of the sequence and everything checked afterwards must be unaffected.'
 ASSUMPTIONS = [
     'finite floats only; factor == 1 with the default count is not generated (the statement defines the default count for factor > 1)',
     'default-count cases keep the expected length <= 2000',
